@@ -25,7 +25,7 @@ tiers: Dict[str, Dict[str, Any]] = {
     "quick": {"runs": 0, "chunk": 1, "wall_cap_s": 2400, "determinism_samples": 2,
               "children": 3, "big_children": 2, "batch": 28, "max_minimise": 3,
               "minimise_budget_s": 90},
-    "thorough": {"runs": 0, "chunk": 1, "wall_cap_s": 3300, "determinism_samples": 2,
+    "thorough": {"runs": 0, "chunk": 1, "wall_cap_s": 7200, "determinism_samples": 2,
                  "children": 12, "big_children": 4, "batch": 28, "max_minimise": 4,
                  "minimise_budget_s": 240},
 }
